@@ -226,8 +226,14 @@ pub fn run_mgr(p: &MgrPlan, rep: &mut RunReport) {
             );
         }
     }
-    // the manager itself finds every added xorb's first chunk (hash_style 0: unique prefixes)
-    for (t, h) in &a.xorbs {
+    // the manager itself finds every added xorb's first chunk (hash_style 0: unique prefixes) — unless the cap of its
+    // chunk index (a designed exception) may have been reached: it stops indexing once the entries indexed so far
+    // reach the cap, which cannot happen while all entries together stay below it
+    let index_cap: usize = std::env::var("HF_XET_CHUNK_INDEX_TABLE_MAX_SIZE").ok().and_then(|v| v.parse().ok()).unwrap_or(64 << 20);
+    let total_entries: usize = a.xorbs.iter().filter_map(|(_, h)| by_hash.get(h)).map(|x| x.chunks.len()).sum();
+    let cap_may_apply = total_entries >= index_cap;
+    rep.count("probe:manager_mt_runs_excluded_from_query_clause_by_index_cap", cap_may_apply as u64);
+    for (t, h) in a.xorbs.iter().filter(|_| !cap_may_apply) {
         if let Some(c) = by_hash.get(h).and_then(|x| x.chunks.first()) {
             match rt0.block_on(mgr.chunk_hash_dedup_query(&[m_of(&c.0)])) {
                 Ok(Some(_)) => {},
